@@ -256,9 +256,9 @@ def run_shard(spec):
             for o in ([opts] if not all16 else [dict(zip(OPTS, bits)) for bits in __import__("itertools").product([False, True], repeat=4)]):
                 handle(gm.model, feeds_list, o, feats)
 
-        from vf.rulehosts.plant_noop import plant_if_scopes, plant_loop_scopes
+        from vf.rulehosts.plant_noop import plant_if_scopes, plant_loop_scopes, plant_operator_table
 
-        cfg = dict(CFG, extra_generators=[plant_if_scopes, plant_loop_scopes, plant_loop_scopes], extra_weight=1)
+        cfg = dict(CFG, extra_generators=[plant_if_scopes, plant_loop_scopes, plant_loop_scopes, plant_operator_table, plant_operator_table], extra_weight=1)
         drive(st.tuples(opt_strategy, modelgen.models(cfg)), body, spec["n"] if not all16 else max(1, spec["n"] // 16), spec["seed"])
     else:
         def body(case):
